@@ -163,6 +163,7 @@ const (
 	serDefault = iota
 	serCustom
 	serFailing
+	serBrokenReader // the serializer succeeds; the io.Reader it returns fails after some bytes
 )
 
 const (
@@ -293,6 +294,7 @@ var (
 	errTransport = errors.New("c17: injected transport failure")
 	errBodyRead  = errors.New("c17: injected response-body read failure")
 	errSer       = errors.New("c17: injected serializer failure")
+	errStream    = errors.New("c17: the serializer's output stream broke off")
 	errDes       = errors.New("c17: injected deserializer failure")
 )
 
@@ -312,6 +314,7 @@ type stubRT struct {
 type failingReader struct {
 	data []byte
 	done bool
+	err  error // nil: errBodyRead
 }
 
 func (f *failingReader) Read(p []byte) (int, error) {
@@ -320,14 +323,22 @@ func (f *failingReader) Read(p []byte) (int, error) {
 		n := copy(p, f.data)
 		return n, nil
 	}
+	if f.err != nil {
+		return 0, f.err
+	}
 	return 0, errBodyRead
 }
 
 func (s *stubRT) RoundTrip(req *http.Request) (*http.Response, error) {
 	c := captured{Method: req.Method, URL: req.URL.String(), Header: req.Header.Clone()}
 	if req.Body != nil {
-		c.Body, _ = io.ReadAll(req.Body)
+		var rerr error
+		c.Body, rerr = io.ReadAll(req.Body)
 		req.Body.Close()
+		if rerr != nil {
+			// like net/http's transport: a request whose body cannot be read is not delivered
+			return nil, rerr
+		}
 	}
 	// What an interceptor or a transport may do to the request's header must
 	// never reach the API's DefaultHeader.
@@ -582,6 +593,11 @@ func runCase[R any](c *apiCase, rk rKind[R]) (res result) {
 		}
 	case serFailing:
 		bodySer = func(body interface{}) (io.Reader, error) { serCalls++; return nil, errSer }
+	case serBrokenReader:
+		bodySer = func(body interface{}) (io.Reader, error) {
+			serCalls++
+			return &failingReader{data: []byte(`{"streamed":"this body breaks off after a few bytes"`), err: errStream}, nil
+		}
 	}
 	mpSer := network.MultipartSerializer(network.GeneralMultipartSerializer)
 	switch c.Ser {
@@ -592,6 +608,11 @@ func runCase[R any](c *apiCase, rk rKind[R]) (res result) {
 		}
 	case serFailing:
 		mpSer = func(f *network.MultipartForm) (io.Reader, string, error) { serCalls++; return nil, "", errSer }
+	case serBrokenReader:
+		mpSer = func(f *network.MultipartForm) (io.Reader, string, error) {
+			serCalls++
+			return &failingReader{data: []byte("--b\r\nContent-Disposition: form-data; name=\"a\"\r\n\r\n"), err: errStream}, customMPType, nil
+		}
 	}
 	if c.Ser != serDefault {
 		api.RequestSerializerForJSON = bodySer
@@ -703,6 +724,7 @@ func runCase[R any](c *apiCase, rk rKind[R]) (res result) {
 
 	for i := 0; i < len(c.Resp); i++ {
 		sent := stub.count()
+		serBefore := serCalls
 		targetBefore := rk.clone(target)
 		var resp *network.APIResponse[R]
 		if p, stack := vlib.Try(func() { resp = eval() }); p != nil {
@@ -714,6 +736,19 @@ func runCase[R any](c *apiCase, rk rKind[R]) (res result) {
 			return
 		}
 		n := stub.count() - sent
+		if c.Ser == serBrokenReader && serCalls > serBefore && urlErr == nil {
+			// the body the serializer produced cannot be read to its end: the request cannot have been
+			// delivered, and the failure comes back as Err
+			if resp.Err == nil {
+				res.fail("C17/fault:not-reported", "evaluation %d: the serializer's output stream failed after %d bytes, but Err is nil (%d request(s) reached the transport)", i, 20, n)
+				return
+			}
+			if !errors.Is(resp.Err, errStream) {
+				res.fail("C17/fault:serializer-stream", "evaluation %d: Err=%v does not carry the error of the serializer's output stream", i, resp.Err)
+				return
+			}
+			continue
+		}
 		if !sameHeader(api.DefaultHeader, headerBefore) {
 			res.fail("C17/header:shared-map", "evaluation %d changed api.DefaultHeader from %v to %v: the request carried the shared map, not a copy", i, headerBefore, api.DefaultHeader)
 			return
@@ -1193,7 +1228,7 @@ func genCase(t *rapid.T) *apiCase {
 			c.Form.Missing = rapid.IntRange(0, 9).Draw(t, "missingFile") == 0
 		}
 	}
-	c.Ser = rapid.SampledFrom([]int{serDefault, serDefault, serDefault, serCustom, serFailing}).Draw(t, "ser")
+	c.Ser = rapid.SampledFrom([]int{serDefault, serDefault, serDefault, serCustom, serFailing, serBrokenReader}).Draw(t, "ser")
 	c.Des = rapid.SampledFrom([]int{desDefault, desDefault, desDefault, desCustomFresh, desTargetErr, desNilErr}).Draw(t, "des")
 	c.RType = rapid.IntRange(0, 1).Draw(t, "rtype")
 	c.Via = rapid.SampledFrom([]int{0, 0, 1, 2}).Draw(t, "via")
